@@ -388,6 +388,10 @@ def probes(R):
         return
     pr = json.loads(p.stdout)
     R.notes["probe"] = pr
+    for label, got in pr.get("load_time_id_collisions") or []:
+        R.violation({"kind": "load-time-id-in-memo", "id": label},
+                    f"a saved __id__ equal to {label} in the loading process makes the node load as {got}: the loader put an id of its own into the memo of saved ids",
+                    {"probe": "load_time_id_collisions", "id": label})
     if pr["array_four_refs_members"] != 1:
         R.violation({"kind": "member-count", "probe": "array-four-refs"}, f"one ndarray referenced four times is stored {pr['array_four_refs_members']} times", {"probe": "array"})
     if not pr["masked_twice_loaded_shared"]:
